@@ -17,9 +17,11 @@ RULE_MODULES: Dict[str, str] = {
     "R17": "r17_dataflow",
     "R19": "r19_cyclegate",
     "R20": "r20_connect",
+    "R21": "r21_projection",
     "R22": "r22_classify",
     "R23": "r23_adapters",
     "R24": "r24_helpers",
+    "R8": "r08_shape",
     "R10": "r10_remote",
     "R11": "r11_reply",
 }
@@ -27,17 +29,17 @@ RULE_MODULES: Dict[str, str] = {
 # property -> list of obligation-id prefixes ("R1" selects every obligation of R1,
 # "R1/O3" only that sub-obligation)
 PROPERTY_RULES: Dict[str, List[str]] = {
-    "C01": ["R1/O1", "R1/O4", "R1/O5", "R2/INFLIGHT", "R2/sink", "R2/anc", "R2/own", "R2/until", "R2/extra", "R3/P1", "R3/P4", "R3/P5", "R5", "R6",
+    "C01": ["R8", "R1/O1", "R1/O4", "R1/O5", "R2/INFLIGHT", "R2/sink", "R2/anc", "R2/own", "R2/until", "R2/extra", "R3/P1", "R3/P4", "R3/P5", "R5", "R6",
             "R20/table/input_delays", "R20/delay", "R19/interval", "R19/anc-closure"],
-    "C02": ["R2/INFLIGHT", "R2/anc", "R2/own", "R3/P", "R4", "R5", "R11/schedule", "R11/sched-value", "R11/time-arg", "R11/last-step", "R20/table/triggers", "R20/delay",
+    "C02": ["R8", "R2/INFLIGHT", "R2/anc", "R2/own", "R3/P", "R4", "R5", "R11/schedule", "R11/sched-value", "R11/time-arg", "R11/last-step", "R20/table/triggers", "R20/delay",
             "R19/anc-closure"],
-    "C03": ["R17", "R5/store", "R5/update_min", "R20/delay", "R20/table", "R11/out", "R4/outtime", "R1/O1"],
-    "C04": ["R5", "R6", "R17", "R10/R18", "R1/O3", "R20/table", "R20/delay"],
-    "C05": ["R1/O4", "R1/O5", "R2", "R4/wake", "R4/settle", "R4/wait", "R5", "R6", "R7/site", "R19/anc-closure"],
+    "C03": ["R21", "R8/lift", "R17", "R5/store", "R5/update_min", "R20/delay", "R20/table", "R11/out", "R4/outtime", "R1/O1"],
+    "C04": ["R21", "R8", "R5", "R6", "R17", "R10/R18", "R1/O3", "R20/table", "R20/delay"],
+    "C05": ["R8", "R1/O4", "R1/O5", "R2", "R4/wake", "R4/settle", "R4/wait", "R5", "R6", "R7/site", "R19/anc-closure"],
     "C06": ["R5", "R6", "R7/site", "R19"],
     "C07": ["R2/INFLIGHT", "R2/sink", "R2/anc", "R2/own", "R2/until", "R2/extra", "R3/P3", "R5/store", "R5/update_min", "R19/anc-closure"],
     "C08": ["R6"],
-    "C09": ["R3/R12", "R4/outtime", "R19/interval"],
+    "C09": ["R8/lift", "R3/R12", "R4/outtime", "R19/interval"],
     "C10": ["R1/O3", "R1/O4", "R2/INFLIGHT", "R2/sink", "R2/own", "R20/table/successors", "R20/delay", "R20/async", "R10/R18"],
     "C11": ["R7/R9", "R20", "R19/interval", "R19/group_path", "R22/readers", "R22/tuple"],
     "C12": ["R22"],
@@ -45,7 +47,7 @@ PROPERTY_RULES: Dict[str, List[str]] = {
     "C14": ["R14", "R11/conn"],
     "C15": ["R23", "R3/P3b"],
     "C16": ["R1/O2", "R1/O4", "R20/async", "R20/connect", "R10/gate", "R10/set_data", "R10/get_data", "R17/take", "R17/memory", "R17/writeback"],
-    "C17": ["R2/rt", "R4/wait", "R10/set_event", "R10/run", "R10/rt_check", "R10/R18"],
+    "C17": ["R8", "R2/rt", "R4/wait", "R10/set_event", "R10/run", "R10/rt_check", "R10/R18"],
     "C18": ["R24"],
 }
 
